@@ -188,7 +188,7 @@ def run_once(sched):
         asyncio.set_event_loop(None)
 
 
-def evaluate(case):
+def evaluate_inner(case):
     res = Result()
     nontrivial = []
     n = case['n']
@@ -321,3 +321,15 @@ def sweeps(tier):
         out.append(('all DAGs on 5 nodes x all start sets x forever masks', 64,
                     lambda k: _enum(5, k, 64)))
     return out
+
+
+def evaluate(case):
+    from ..structural import user_stack
+    with user_stack():
+        try:
+            return evaluate_inner(case)
+        except RecursionError as exc:
+            res = Result()
+            res.fail('%s:recursion-error' % ID, "RecursionError with 950 stack frames available "
+                     "(graph of %s nodes): %s" % (case.get('n', '?'), exc))
+            return res
